@@ -39,6 +39,12 @@ FAULTS = [
     ("index-into-a-non-tuple", "TP", "TP { pair: ((1, 2), 3) }", "TP { pair.1.0: 1, .. }", "pair.1.0: 1"),
     ("unknown-third-consecutive-index", "TP", "TP { pair: ((1, 2), 3) }", "_ { pair.0.1.5: 1, .. }", "pair.0.1.5: 1"),
     ("consecutive-indices-wrong-literal", "TP", "TP { pair: ((1, 2), 3) }", "TP { pair.0.1: \"two\", .. }", "\"two\""),
+    # the SAME literal text twice in one pattern, the second time on a type it does not fit (a user type with another Like impl, a
+    # number): the error belongs to the second occurrence (`@last:` = the fragment's last occurrence in the pattern)
+    ("repeated-regex-literal-second-ill-typed", "TwoR", "TwoR { s: \"xa\".to_string(), e: Em(\"xb\".to_string()), n: 1 }", "TwoR { s: =~ r\"^x\", e: =~ r\"^x\", .. }", "@last:=~ r\"^x\""),
+    ("repeated-regex-literal-on-a-number", "TwoR", "TwoR { s: \"xa\".to_string(), e: Em(\"xb\".to_string()), n: 1 }", "TwoR { s: =~ r\"^x\", n: =~ r\"^x\", .. }", "@last:=~ r\"^x\""),
+    ("repeated-string-literal-second-ill-typed", "TwoR", "TwoR { s: \"xa\".to_string(), e: Em(\"xb\".to_string()), n: 1 }", "TwoR { s: \"xa\", n: \"xa\", .. }", "@last:\"xa\""),
+    ("repeated-operand-second-ill-typed", "TwoR", "TwoR { s: \"xa\".to_string(), e: Em(\"xb\".to_string()), n: 1 }", "TwoR { n: == 1, s: == 1, .. }", "@last:== 1"),
     ("nested-operand-type", "Leaf", "Leaf { n: 7, s: \"hello\".to_string() }", "Leaf { n: 7, s.len(): < \"five\" }", "< \"five\""),
 ]
 
@@ -79,8 +85,16 @@ def primary_spans(stderr):
     return out
 
 
+def frag_start(pattern, fragment):
+    return pattern.rindex(fragment[len("@last:"):]) if fragment.startswith("@last:") else pattern.index(fragment)
+
+
 def points_into(spans, line, pattern, fragment):
-    lo = pattern.index(fragment) + 1
+    if fragment.startswith("@last:"):
+        fragment = fragment[len("@last:"):]
+        lo = pattern.rindex(fragment) + 1
+    else:
+        lo = pattern.index(fragment) + 1
     hi = lo + len(fragment)
     for s in spans:
         if s["line_start"] == line and s["line_end"] == line and lo <= s["col_start"] and s["col_end"] <= hi:
@@ -142,7 +156,7 @@ def run(res):
             if failing <= 3:
                 res.violation("failing-input",
                               "type fault `%s` in position `%s`: no error has its primary location on `%s` (line %d, columns %d-%d); "
-                              "errors are reported at %s" % (kind, pos, frag, line, pat.index(frag) + 1, pat.index(frag) + len(frag),
+                              "errors are reported at %s" % (kind, pos, frag, line, frag_start(pat, frag) + 1, frag_start(pat, frag) + len(frag.replace("@last:", "")),
                                                              [(s["code"], s["line_start"], s["col_start"], s["col_end"], "in-expansion" if s["in_expansion"] else "")
                                                               for s in spans][:4]),
                               {"fault": kind, "position": pos, "pattern": pat, "fragment": frag, "line": line, "errors": spans[:6], "program": src})
